@@ -1004,6 +1004,9 @@ func Script(asserts []*Term, opts ScriptOpts) string {
 	for _, a := range asserts {
 		walk(a)
 	}
+	for _, a := range opts.NamedValues {
+		walk(a)
+	}
 	var sb strings.Builder
 	if opts.Cvc5 {
 		sb.WriteString("(set-option :produce-models true)\n(set-logic ALL)\n")
@@ -1060,7 +1063,19 @@ func Script(asserts []*Term, opts ScriptOpts) string {
 		a.write(&b, names)
 		fmt.Fprintf(&sb, "(assert %s)\n", b.String())
 	}
+	for i, v := range opts.NamedValues {
+		var b strings.Builder
+		v.write(&b, names)
+		fmt.Fprintf(&sb, "(define-fun mv!%d () %s %s)\n", i, v.Sort, b.String())
+	}
 	sb.WriteString("(check-sat)\n")
+	if len(opts.NamedValues) > 0 {
+		sb.WriteString("(get-value (")
+		for i := range opts.NamedValues {
+			fmt.Fprintf(&sb, "mv!%d ", i)
+		}
+		sb.WriteString("))\n")
+	}
 	if len(opts.GetValues) > 0 {
 		sb.WriteString("(get-value (")
 		for _, v := range opts.GetValues {
@@ -1074,8 +1089,9 @@ func Script(asserts []*Term, opts ScriptOpts) string {
 }
 
 type ScriptOpts struct {
-	Cvc5      bool
-	GetValues []*Term
+	Cvc5        bool
+	GetValues   []*Term
+	NamedValues []*Term
 }
 
 // Size returns the number of distinct nodes reachable from the terms.
